@@ -242,6 +242,13 @@ def run(tier):
                 der = nm.block_der(row)
                 disj, ctx = r2.row_disjuncts(t, row)
                 ctx_txt = [canon_atom(norm_atom(nm.text(c, der), p)) for (c, p) in ctx if p]
+                # else-sides of conditions that are not screening rows: the row is reached only when such a condition is false
+                for (c, p) in ctx:
+                    if p is False and id(c) not in t.rowconds:
+                        atoms_ = [canon_atom(norm_atom(nm.text(a_, der), True)) for dd in r2.dnf(r2.subst(c, t.defs), True) for (a_, pp) in dd]
+                        atoms_ = [a_ for a_ in atoms_ if not INFO_TEST.match(a_) and not INFO_NZ.match(a_)]
+                        if atoms_:
+                            ctx_txt.append('not(' + ' && '.join(sorted(set(atoms_))) + ')')
                 for d in disj:
                     atoms = [canon_atom(norm_atom(nm.text(a, der), p)) for (a, p) in d]
                     table.append((k, atoms, ctx_txt, row))
@@ -282,7 +289,7 @@ def run(tier):
                             # an enclosing positive guard that constrains a quantity of the precondition itself (and is not one of
                             # its atoms) screens the precondition on part of its domain only
                             nar = [c for c in ctx if c not in reqset and c not in INFO_CLEAR and not INFO_TEST.match(c)
-                                   and len(req) > 1 and terms(c) & set().union(*[terms(a) for a in req])]
+                                   and ((len(req) > 1 and terms(c) & set().union(*[terms(a) for a in req])) or c.startswith('not('))]
                             if nar:
                                 narrowed = (row, nar)
                                 continue
@@ -334,6 +341,7 @@ def run(tier):
 INFO_CLEAR = {'(*$info == 0)', '(*info == 0)', '(info == 0)'}
 
 
+INFO_NZ = re.compile(r'^\(\*?(\$\d+|info) != 0\)$')
 INFO_TEST = re.compile(r'^\(\*?(\$\d+|info) == 0\)$')
 
 
